@@ -229,6 +229,17 @@ def step (st : St) (line : String) : St × List String :=
          nRetries := st.nRetries, nExpired := st.nExpired, nPanics := st.nPanics,
          cfg := { ourAddr := our, govChain := gc, govEmitter := ge } }, [])
     | _, _, _ => (st, ["diff ? unparsable reset line"])
+  | "stall" :: id :: rest =>
+    -- Spec (C17, last clause): "posting to a full outbound request queue fails immediately instead of stalling the caller" — the
+    -- caller being the cleanup pass inside `Run`.  `ms` is the SHORTEST of the wall-clock durations of the ticks handled with a full
+    -- request queue and `due` retransmissions each (two independent ticks, so that one scheduling hiccup cannot produce a verdict);
+    -- the pinned code needs microseconds, the bound is 1.5 s.
+    match kvNat rest "ms", kvNat rest "due" with
+    | some ms, some due =>
+      if ms > 1500 then
+        (st, [s!"spec {id} cleanup-stalled-on-full-request-queue with the outbound request queue full and {due} retransmission(s) due, every cleanup tick took at least {ms} ms (ticks: {(kv rest "all").getD "?"} ms); posting to a full queue must fail immediately, and while the tick runs no observation, message or guardian-set update is handled"])
+      else (st, [s!"ok {id}"])
+    | _, _ => (st, [s!"diff {id} unparsable stall line"])
   | "reqs" :: id :: rs :: _ =>
     if st.dead || st.desync then (st, []) else
     match st.pendingReqs with
